@@ -24,6 +24,7 @@ type genSpec struct {
 	Dir, Package, Output, Dict string
 	Refs                       map[string]string
 	Ignore                     []string
+	Args                       []string // the directive's arguments to the command, as written
 }
 
 func findSpecs(repo string) []genSpec {
@@ -42,6 +43,12 @@ func findSpecs(repo string) []genSpec {
 				}
 				f := strings.Fields(line)
 				s := genSpec{Dir: filepath.Dir(m), Refs: map[string]string{}}
+				for i := range f {
+					if strings.Contains(f[i], "radius-dict-gen") {
+						s.Args = append([]string(nil), f[i+1:]...)
+						break
+					}
+				}
 				for i := 0; i < len(f); i++ {
 					switch f[i] {
 					case "-package":
